@@ -15,3 +15,50 @@ def cases(tier):
         c2["name"] = c["name"] + ".maximize"
         cs.append(c2)
     return cs
+
+
+def h_order(P, n=3, wrappers=1):
+    """Ordering laws of Individual (functools.total_ordering over FunctionProblem.worse_than through wrappers) on symbolic float64
+    fitness including +-inf and signed zeros, symbolic direction."""
+    from symx.core import land, lor, lnot, implies, iff, ite, is_sym
+    from ._pop import mk_problem, mk_inds, strictly_better, not_worse
+
+    prob, F, maximize, bounds = mk_problem(P, 1, wrappers=wrappers)
+    xs = mk_inds(P, prob, n, 1, "x")
+    for a in xs:
+        P.oblige("order.irreflexive", not bool(a < a) and bool(a == a) and bool(a <= a) and bool(a >= a))
+    for a in xs:
+        for b in xs:
+            if a is b:
+                continue
+            lt, gt, eq = bool(a < b), bool(a > b), bool(a == b)
+            P.oblige("order.trichotomy", (lt + gt + eq) == 1)
+            P.oblige("order.lt_means_strictly_worse", lt == bool(strictly_better(b.fitness, a.fitness, maximize)))
+            P.oblige("order.le_ge_consistent", bool(a <= b) == (lt or eq) and bool(a >= b) == (gt or eq) and bool(a != b) == (not eq))
+    if n >= 3:
+        a, b, c = xs[:3]
+        P.oblige("order.transitive", (not (bool(a < b) and bool(b < c))) or bool(a < c))
+    best = max(xs)
+    for a in xs:
+        P.oblige("order.max_is_not_worse_than_any", bool(not_worse(best.fitness, a.fitness, maximize)))
+    srt = sorted(xs, reverse=True)
+    for i in range(n - 1):
+        P.oblige("order.sorted_best_first", bool(not_worse(srt[i].fitness, srt[i + 1].fitness, maximize)))
+    P.oblige("order.none_is_smallest", not bool(xs[0] < None) and not bool(xs[0] == None))  # noqa: E711
+
+
+_runs = cases
+
+
+def cases(tier):  # noqa: F811
+    from .c12 import h_select, h_de
+
+    cs = _runs(tier)
+    cs.append(dict(name="order.n3.w1", fn=h_order, params=dict(n=3, wrappers=1), profile="fp", budget_s=900, weight=10))
+    cs.append(dict(name="order.n2.w3", fn=h_order, params=dict(n=2, wrappers=3), profile="fp", budget_s=900))
+    cs.append(dict(name="selection_keeps_best.fp.n2.k1", fn=h_select, params=dict(n=2, k_elites=1), profile="fp", budget_s=900))
+    cs.append(dict(name="selection_keeps_best.real.n3.k1", fn=h_select, params=dict(n=3, k_elites=1), profile="real", budget_s=1500, weight=10))
+    if tier == "thorough":
+        cs.append(dict(name="order.n4.w0", fn=h_order, params=dict(n=4, wrappers=0), profile="fp", budget_s=3000, weight=40))
+        cs.append(dict(name="de_keeps_best.n4", fn=h_de, params=dict(n=4), profile="fp", budget_s=3000, weight=30))
+    return cs
